@@ -81,7 +81,9 @@ Record wrapper := {
   w_result : rconv;                             (* how the body returns it *)
   w_buf : bool;                                 (* a bufferify variant: the result travels through an argument *)
   w_this_const : bool;                          (* the object pointer recovered from the capsule is a pointer to const *)
-  w_fconst : bool                               (* the C++ member function is declared const *)
+  w_fconst : bool;                              (* the C++ member function is declared const *)
+  w_cparams : list string;                      (* the names of the C prototype's parameters *)
+  w_lens : list string                          (* C parameters from which a std::string is built WITH the trimmed length L<name> *)
 }.
 
 (* the documented way a result of a given kind is returned; None = outside the covered grammar *)
@@ -137,8 +139,16 @@ Definition known_kind (w : wrapper) : bool :=
 Definition covered (w : wrapper) : bool :=
   known_kind w && forallb (fun p => match expected (snd p) with Some _ => true | None => false end) (w_params w).
 
+(* a std::string built from a C parameter uses the trimmed length L<name> exactly when the prototype has that parameter (the
+   bufferify route: the text is blank padded and not terminated there; without the length the string would run to the next NUL) *)
+Definition smem (s : string) (l : list string) : bool := existsb (String.eqb s) l.
+Definition lens_ok (w : wrapper) : bool :=
+  forallb (fun a => if conv_eqb (fst a) StringFrom
+                    then Bool.eqb (smem (String.append "L" (snd a)) (w_cparams w)) (smem (snd a) (w_lens w))
+                    else true) (w_args w).
+
 Definition wrapper_ok (w : wrapper) : bool :=
-  Nat.eqb (w_unknown w) 0 && call_ok w && args_ok (w_params w) (w_args w)
+  Nat.eqb (w_unknown w) 0 && call_ok w && lens_ok w && args_ok (w_params w) (w_args w)
   && str_list_eqb (w_copyouts w) (map fst (filter (fun p => needs_copyout (snd p)) (w_params w))).
 
 (* ---- values ---- *)
